@@ -106,24 +106,42 @@ def _c09(report, tier):
     from . import setprops, setgen, setrun
     from .setgen import SCfg
     jobs = [(n, setgen.random_script(SCfg(n), C.seed() + 9, 600 if tier == "thorough" else 80, 40, inject_prob=0.25)) for n in setgen.CONFIGS]
+    # and systematically: every constructing / copying / allocating set operation x k-th throwing event, then uses of the sets
+    jobs += [(n, setgen.throw_grid(SCfg(n), 9 if tier == "thorough" else 6, tier == "thorough")) for n in setgen.CONFIGS]
     res = setrun.run_scripts(jobs)
     nset = 0
+    ngrid = 0
+    seen_classes = set()
+    set_known = C.load_known()
     for (name, lines), (cn, hs, err, berr) in zip(jobs, res):
         if berr:
             continue
         scr = setrun.split_histories(lines)
         for h in hs:
             nset += len(h.steps)
-            fs = [f for f in h.failures() if f[1] in ("C09", "C02", "C06", "CRASH", "C03", "C04")]
+            ngrid += 1 if h.hid.startswith("tg") else 0
+            fs = [f for f in h.failures() if f[1] in ("C09", "C02", "C06", "CRASH", "C03", "C04", "C11")]
+            thrown = [s.op.split(" ")[1] for s in h.steps if s.res.startswith("threw") and s.op.startswith("!")]
             threw_before = any(s.res.startswith("threw") for s in h.steps)
             if fs and threw_before:
                 i, p, msg = fs[0]
+                cls = (name, thrown[0] if thrown else "?", msg.split("[")[0][:60])
+                if cls in seen_classes:
+                    continue
+                seen_classes.add(cls)
+                opl = [s.op for s in h.steps if s.res.startswith("threw") and s.op.startswith("!")]
+                at = h.steps[i].op if (i is not None and i < len(h.steps)) else (opl[0] if opl else "")
+                km = vecprops.known_match(set_known, "C09", SCfg(name), at, msg)
+                if km is not None:
+                    report.known_finding("%s: %s" % (km["site"], km["failure"]))
+                    continue
                 hl = scr.get(h.hid, [])
                 report.violation({"config": name, "script": hl[: (i + 1 if i is not None else len(hl))], "oracle": p, "observed": msg,
+                                  "throwing_operation": thrown[0] if thrown else None,
                                   "found_by": "set fault injection", "no_failing_input_found": False},
                                  "%s: after an injected exception: %s\n  script: %s" % (name, msg, " ; ".join(hl[: (i + 1 if i is not None else len(hl))][-8:])))
-                break
     report.coverage["set_steps_with_injection"] = nset
+    report.coverage["set_fault_grid_histories"] = ngrid
     report.coverage["evaluations"] += nset
     found = len(report.violations) > n0
     if broken and not found:
